@@ -143,6 +143,49 @@ def leaf_table(ctx, p, ct):
             ctx.fail("C04-R2", bd.path, "leaf order", "the appended leaves are not the elements of the sorted id table in order (pdf_index = %s)" % (show(v)[:100] if v else None), cm.loc_of(st["span"]))
 
 
+def r9_leaf_names(ctx, p):
+    """R9: a tree's child written in quotes and the same child written without quotes are the same
+    child: parse_tree_index tries one parser X bare and the same X between double quotes, and X
+    accepts a node id or a pdf name"""
+    import re as _re
+    ctx.rule("C04-R9", "tree children: parse_tree_index = alt(X, '\"' X '\"') with the same X on both sides, X = alt(signed digits -> Node, identifier -> Pdf)")
+    root = None
+    for path in p.bodies:
+        if path.endswith("::parse_tree_index") and "TreeParser" in path:
+            root = path
+    if root is None:
+        ctx.fail("C04-R9", "model::parser::model::tree::TreeParser::parse_tree_index", "anchor", "parse_tree_index not found")
+        return
+    b = p.bodies[root]
+    outer = inner = None
+    for bd in [b] + list(p.nested(root)):
+        for bb, t in bd.calls():
+            c = t["callee"]
+            if c["k"] == "fndef" and cm.callee_name(c).endswith("branch::alt"):
+                a = (c.get("args") or [""])[0]
+                if bd is b:
+                    outer = (a, t)
+                elif "parse_signed_digits" in a or "TreeIndex::Node" in a:
+                    inner = (a, t, bd)
+    okq = False
+    if outer is not None:
+        a = outer[0]
+        closures = _re.findall(r"\{closure@src/[^}]*\}", a)
+        quoted = "nom::character::complete::char" in a and ("Preceded<" in a or "Delimited<" in a or "delimited" in a)
+        # the bare alternative and the quoted alternative wrap the same closure type
+        okq = quoted and len(closures) == 2 and closures[0] == closures[1]
+        if okq:
+            ctx.ok("C04-R9", "parse_tree_index: the same child parser is tried bare and between double quotes", cm.loc_of(outer[1]["span"]))
+        else:
+            ctx.fail("C04-R9", root, "quoted / unquoted", "the bare and the quoted alternative of parse_tree_index do not wrap the same child parser (%s): a leaf name written without quotes and the same name in quotes would not select the same PDF (or one form would be rejected)" % a[:200], cm.loc_of(outer[1]["span"]))
+    else:
+        ctx.fail("C04-R9", root, "alternatives", "parse_tree_index has no alt(..) of a bare and a quoted form", b.loc())
+    if inner is not None and "parse_signed_digits" in inner[0] and "TreeIndex::Node" in inner[0] and "{closure@" in inner[0]:
+        ctx.ok("C04-R9", "child parser = alt(signed digits -> Node, identifier -> Pdf)", cm.loc_of(inner[1]["span"]))
+    else:
+        ctx.fail("C04-R9", root, "child parser", "the child parser is not alt(node id, pdf name)", b.loc())
+
+
 def r8_text_precision(ctx, p):
     """R8: numbers written as text in the voice file (window coefficients) are parsed at f64
     precision: the resolved parser combinators of the window-row parser are instantiated with
@@ -803,6 +846,7 @@ def run(ctx):
     ctx.assume("serde_derive maps the i-th key of the field visitor to the i-th struct field")
     r7_ranges(ctx, p)
     r8_text_precision(ctx, p)
+    r9_leaf_names(ctx, p)
     expl = ("Resolved dataflow from header fields to metadata fields, from node-line token positions to yes/no child fields and on to the "
             "tree walk, exact polynomial forms of the index bases and of the three PDF record lengths, the mean|variance|msd split of a "
             "record, the element parsers and the f32->f64 widening, control dependence of each option store on its string-literal key, "
